@@ -15,6 +15,7 @@ import (
 	"github.com/yorkie-team/yorkie/pkg/document/crdt"
 	yjson "github.com/yorkie-team/yorkie/pkg/document/json"
 	"github.com/yorkie-team/yorkie/pkg/document/presence"
+	"github.com/yorkie-team/yorkie/pkg/document/time"
 
 	"verif/internal/gen"
 	"verif/internal/runner"
@@ -218,7 +219,7 @@ func (w *c08Worker) run(res *runner.CaseResult, seed int64, idx int) {
 	}
 	cloneRoot := func(where string) bool {
 		if bad := textIndexProblem(A.S); bad != "" {
-			viol("text-index-corrupt", where+": "+bad)
+			viol("structure-corrupt", where+": "+bad)
 			return false
 		}
 		res.AddStat("clone_root_comparisons", 1)
@@ -531,6 +532,50 @@ func treeChainProblem(t *crdt.Tree) string {
 	return ""
 }
 
+// registryProblem checks the root's registries of the authoritative document against its
+// structure: every element reachable from the root object is registered under its identity
+// (an operation addressed to it finds it), and a collection with an EMPTY version vector -
+// which purges nothing - runs through: Root.GarbageCollect dereferences RemovedAt() of every
+// registered pair, so it dies exactly when a LIVE element is registered as garbage.
+func registryProblem(d *document.Document) (bad string) {
+	defer func() {
+		if x := recover(); x != nil {
+			bad = fmt.Sprintf("a collection that purges nothing panicked (a live element is registered as garbage): %v", x)
+		}
+	}()
+	root := d.InternalDocument().Root()
+	var walk func(e crdt.Element, path string)
+	walk = func(e crdt.Element, path string) {
+		if bad != "" {
+			return
+		}
+		if root.FindByCreatedAt(e.CreatedAt()) == nil {
+			bad = fmt.Sprintf("element %s (%s, createdAt %s) is in the document but not registered at the root", path, kindOfElem(e), e.CreatedAt().Key())
+			return
+		}
+		switch v := e.(type) {
+		case *crdt.Object:
+			for k, m := range v.Members() {
+				walk(m, path+"."+k)
+			}
+		case *crdt.Array:
+			for i, m := range v.Elements() {
+				walk(m, fmt.Sprintf("%s[%d]", path, i))
+			}
+		}
+	}
+	walk(d.RootObject(), "$")
+	if bad != "" {
+		return bad
+	}
+	if n, err := root.GarbageCollect(time.NewVersionVector()); err != nil {
+		return "a collection that purges nothing failed: " + err.Error()
+	} else if n != 0 {
+		return fmt.Sprintf("a collection with an empty version vector purged %d nodes", n)
+	}
+	return ""
+}
+
 // textIndexProblem checks every Text of the document (document and working copy): the
 // index structures must agree with the node chain.
 func textIndexProblem(d *document.Document) string {
@@ -568,6 +613,9 @@ func textIndexProblem(d *document.Document) string {
 	walk(d.RootObject(), "document")
 	if bad == "" {
 		walk(d.Root().Object, "working copy")
+	}
+	if bad == "" {
+		bad = registryProblem(d)
 	}
 	return bad
 }
